@@ -46,7 +46,11 @@ def relayout(mod, rng):
     def rec(nodes):
         for n in nodes:
             if n.get("doc") is not None:
-                n["doc"]["indent"] = rng.choice(["", "  ", "    ", "\t", "\t\t", " \t "])
+                if n["doc"].get("cuts"):
+                    # a ragged block is re-indented by adding the same prefix to every line
+                    n["doc"]["prefix"] = rng.choice(["  ", "    ", "\t", " \t", "      "])
+                else:
+                    n["doc"]["indent"] = rng.choice(["", "  ", "    ", "\t", "\t\t", " \t "])
             if "body" in n:
                 rec(n["body"])
             if n.get("impl"):
@@ -55,6 +59,22 @@ def relayout(mod, rng):
     if m.get("module"):
         m["module"]["indent"] = rng.choice(["", "  ", "\t"])
     return m
+
+
+def make_ragged(mod, rng, p=0.25):
+    """some doccomment blocks get lines indented less than the block (still one token sequence
+    under uniform re-indentation)"""
+    def rec(nodes):
+        for n in nodes:
+            d = n.get("doc")
+            if d is not None and n.get("kind") != "dangling" and d["indent"] and d["lines"] and rng.random() < p:
+                k = rng.randint(1, min(2, len(d["indent"])))
+                d["cuts"] = {rng.randrange(len(d["lines"])): k}
+            if "body" in n:
+                rec(n["body"])
+            if n.get("impl"):
+                rec([n["impl"]])
+    rec(mod["body"])
 
 
 def norm_crlf(text):
@@ -98,6 +118,7 @@ def run(rep, model, tier, seed, broken=()):
     nv = 0
     for i in range(npairs):
         mod = gen.gen_module(rng, budget=rng.choice([4, 8, 16, 30]))
+        make_ragged(mod, rng)
         s1, s2 = rng.getrandbits(40), rng.getrandbits(40)
         t1 = gen.print_module(mod, random.Random(s1), trivia_p=0.0)
         t2 = gen.print_module(relayout(mod, rng), random.Random(s2), trivia_p=rng.choice([0.2, 0.4, 0.6]))
